@@ -50,6 +50,15 @@
 //     by name, import / include statements pinned to revision-dates that are not the loaded
 //     revision; readers resolve prefixes against it (absolute prefixed Find, FindModuleByPrefix);
 //     every set restricts built-in types with the keywords min / max (shared parent ranges);
+//   - rejected texts: every goroutine that loads a set also loads 2-3 texts goyang must reject
+//     (syntax errors of several kinds, an unknown statement), on a throw-away Modules and on the
+//     set's own Modules before and between its sources; before every round (bar the cold first
+//     round of every other process) texts of every kind are loaded sequentially.  The diagnostics
+//     each text gets are compared with the sequential twin's; a diagnostic naming a file of
+//     another set is a violation of its own wording;
+//   - wide directories: sets with errors have a directory of 24, 32, 64 or 200 children (leaves,
+//     containers) with errors in two or more child subtrees, in shared sets (all readers call
+//     GetErrors on it together) and in pipeline sets;
 //   - the conditions that put the allow-listed write sites (harness/cmd/extract-access/
 //     allow.json) outside the claim are asserted: ToEntry of a processed module returns the entry
 //     cached by Process; Find is called with paths of existing nodes only and afterwards no root
@@ -72,6 +81,7 @@ import (
 	"os"
 	"os/exec"
 	"path/filepath"
+	"regexp"
 	"runtime/debug"
 	"sort"
 	"strings"
@@ -94,7 +104,7 @@ type modSrc struct {
 }
 
 type genStats struct {
-	modules, submodules, rpcs, augments, uses, deviations, withErrors, orphans, leafrefs int
+	modules, submodules, rpcs, augments, uses, deviations, withErrors, orphans, leafrefs, wide int
 }
 
 // palette says which statement kinds a generated set may use.  The base kinds (module, import,
@@ -104,6 +114,9 @@ type palette struct {
 	// pins (not a staged kind, set by the caller): import and include statements carry a
 	// revision-date that is not the revision that gets loaded
 	pins bool
+	// wide (not a staged kind, set by the caller): in a set with errors module m0 gets a WIDE
+	// directory of that many children with errors in two or more child subtrees (see wideDir)
+	wide int
 }
 
 var paletteKinds = []string{"uses", "leaf-list", "list", "choice", "nested", "rpc", "action", "notification", "anydata", "augment", "deviation", "submodule"}
@@ -312,6 +325,10 @@ func genSet(r *rand.Rand, withErrors bool, pal palette) ([]modSrc, genStats) {
 		}
 		if withErrors && i == 0 {
 			errorNests(&b, r, pal)
+			if pal.wide > 0 {
+				st.wide++
+				wideDir(&b, r, pal)
+			}
 		}
 		nr := 0
 		if pal.rpc {
@@ -447,6 +464,179 @@ func errorNests(b *strings.Builder, r *rand.Rand, pal palette) {
 	}
 }
 
+// wideWidths: the numbers of children of the wide directories.
+var wideWidths = []int{24, 32, 64, 200}
+
+// wideDir writes, into module m0 of a set with errors, a WIDE directory: pal.wide (24, 32, 64, 200)
+// children - every third one a container, the rest leaves - of which TWO OR MORE (2-6 picked at
+// random; one time in four every container as well) carry errors in their subtrees: a leaf child of
+// an unknown type, a container child with such a leaf directly below it or one level further down,
+// and (once uses is a statement kind of the process) container children that use one grouping whose
+// leaf has an unknown type, so that the same error value stands in several child subtrees.  Two
+// times in three the children stand in `container wide`, otherwise directly in the module (the
+// module entry is the wide directory).  Whatever walks the children of a directory - the error
+// accessor, Process (three times per module), Print - meets it in pipelines and, on the shared
+// set, in all readers at once.
+func wideDir(b *strings.Builder, r *rand.Rand, pal palette) {
+	n := pal.wide
+	top := r.Intn(3) == 0
+	ind := "    "
+	if top {
+		ind = "  "
+	}
+	if pal.uses {
+		b.WriteString("  grouping wg { leaf shared { type nosuchtype-in-grouping; } leaf plain { type string; } }\n")
+	}
+	if !top {
+		b.WriteString("  container wide {\n")
+	}
+	bad := map[int]bool{}
+	for ne := 2 + r.Intn(5); len(bad) < ne; {
+		bad[r.Intn(n)] = true
+	}
+	if r.Intn(4) == 0 {
+		for j := 0; j < n; j += 3 {
+			bad[j] = true
+		}
+	}
+	for j := 0; j < n; j++ {
+		switch {
+		case j%3 == 0:
+			fmt.Fprintf(b, "%scontainer wc%d { leaf a { type string; }", ind, j)
+			if bad[j] {
+				switch v := r.Intn(3); {
+				case v == 0:
+					b.WriteString(" leaf bad { type nosuchtype; }")
+				case v == 1:
+					b.WriteString(" container in { leaf deep { type p0:alsonot; } leaf fine { type uint8; } }")
+				case pal.uses:
+					b.WriteString(" uses wg;")
+				default:
+					b.WriteString(" leaf bad { type nosuchtype; mandatory perhaps; }")
+				}
+			}
+			b.WriteString(" }\n")
+		case bad[j]:
+			fmt.Fprintf(b, "%sleaf wl%d { type nosuchtype; }\n", ind, j)
+		default:
+			fmt.Fprintf(b, "%sleaf wl%d { type string; }\n", ind, j)
+		}
+	}
+	if !top {
+		b.WriteString("  }\n")
+	}
+}
+
+// ---------------------------------------------------------------------------------------------
+// rejected texts
+
+// rejectedKinds: the ways in which a text is rejected when it is loaded.  The first six are
+// reported by Parse (parser and lexer), "unknown-statement" by the AST builder.
+var rejectedKinds = []string{"missing-closing-brace", "extra-closing-brace", "end-of-text-in-statement", "missing-semicolon",
+	"quoted-keyword", "unterminated-string", "unknown-statement", "several-errors"}
+
+// rejectedText: a module text of 3-30 leaves (one in eight: 100 more; parsing is what costs most
+// under the race detector) that goyang must reject, with a file name of its
+// own (tag names the round, the goroutine and the set it belongs to), so that every diagnostic
+// says whose text it is about; the place of the mistake (hence the reported line) varies.
+func rejectedText(r *rand.Rand, tag string, kind int) modSrc {
+	kind %= len(rejectedKinds)
+	name := fmt.Sprintf("rej-%s-%d", tag, kind)
+	n := 3 + r.Intn(28)
+	if r.Intn(8) == 0 {
+		n += 100
+	}
+	at := r.Intn(n)
+	var b strings.Builder
+	fmt.Fprintf(&b, "module %s {\n  namespace \"urn:%s\";\n  prefix rj;\n  container c {\n", name, name)
+	for i := 0; i < n; i++ {
+		if i == at {
+			switch rejectedKinds[kind] {
+			case "missing-semicolon", "several-errors":
+				fmt.Fprintf(&b, "    leaf x%d { type string }\n", i)
+			case "quoted-keyword":
+				fmt.Fprintf(&b, "    \"container\" q%d { }\n", i)
+			case "unknown-statement":
+				fmt.Fprintf(&b, "    nosuchstatement s%d;\n", i)
+			}
+		}
+		fmt.Fprintf(&b, "    leaf l%d { type string; }\n", i)
+	}
+	switch rejectedKinds[kind] {
+	case "missing-closing-brace":
+		b.WriteString("  }\n")
+	case "extra-closing-brace", "several-errors":
+		b.WriteString("  }\n}\n}\n")
+	case "end-of-text-in-statement":
+		b.WriteString("    leaf last { type string")
+	case "unterminated-string":
+		b.WriteString("    leaf last { type string; description \"never closed; }\n  }\n}\n")
+	default:
+		b.WriteString("  }\n}\n")
+	}
+	return modSrc{Name: name + ".yang", Text: b.String()}
+}
+
+// rejectedFor: the rejected texts that go with one module set: 2-3 of them, of different kinds.
+func rejectedFor(r *rand.Rand, tag string) []modSrc {
+	var out []modSrc
+	k0 := r.Intn(len(rejectedKinds))
+	for q, n := 0, 2+r.Intn(2); q < n; q++ {
+		out = append(out, rejectedText(r, tag, k0+q*3))
+	}
+	return out
+}
+
+var yangFileName = regexp.MustCompile(`[A-Za-z0-9_.-]+\.yang`)
+
+// diagnose hands a rejected text to ms (Parse of the text, or Read by name when the text is a
+// file of a directory set) and renders the outcome: the diagnostics as they are.  The text has a
+// file name nobody else uses, so a diagnostic that names any other .yang file speaks about a
+// text of another module set; that is marked.
+func diagnose(ms *yang.Modules, s modSrc, dir string) string {
+	return guard(func() string {
+		var err error
+		if dir != "" {
+			err = ms.Read(strings.TrimSuffix(s.Name, ".yang"))
+		} else {
+			err = ms.Parse(s.Text, s.Name)
+		}
+		if err == nil {
+			return "rejected-text " + s.Name + ": ACCEPTED"
+		}
+		out := fmt.Sprintf("rejected-text %s: %q", s.Name, err.Error())
+		for _, f := range yangFileName.FindAllString(err.Error(), -1) {
+			if f != s.Name {
+				return out + " " + foreignMark + "(" + f + ")"
+			}
+		}
+		return out
+	})
+}
+
+const foreignMark = "DIAGNOSTIC-NAMES-A-FILE-OF-ANOTHER-SET"
+
+// rejectAll: every kind of rejected text on a throw-away Modules of its own and, again, on one
+// Modules that takes them all; run sequentially (between the rounds of a process).  Sequentially
+// the diagnostics of a text do not depend on what was loaded before: the two must be equal.
+func rejectAll(seed int64, round int) []string {
+	r := rand.New(rand.NewSource(roundSeed(seed, round) + 7))
+	var problems []string
+	ms := yang.NewModules()
+	for k := range rejectedKinds {
+		t := rejectedText(r, fmt.Sprintf("r%d-between", round), k)
+		d1 := diagnose(yang.NewModules(), t, "")
+		d2 := diagnose(ms, t, "")
+		if (d1 != d2 || strings.Contains(d1, foreignMark) || strings.HasSuffix(d1, "ACCEPTED")) && len(problems) < 3 {
+			problems = append(problems, fmt.Sprintf("rejected text %s loaded twice, sequentially, before round %d: on a fresh Modules %s; on a Modules that had rejected other texts %s", t.Name, round, d1, d2))
+		}
+	}
+	if len(ms.Modules)+len(ms.SubModules) > 0 {
+		problems = append(problems, fmt.Sprintf("a Modules that rejected every text holds modules %v", modNames(ms)))
+	}
+	return problems
+}
+
 // deepSet: one module of 150-220 nested containers (every fifth level also uses a small grouping
 // once groupings are in use in the process), a leaf on every level.  All pipelines of a round
 // convert one such set first, at the same time: whatever limits or counts the recursion of the
@@ -490,11 +680,31 @@ func hashSet(srcs []modSrc) string {
 // (submodules come in through their include statements, from the path; an orphan submodule, which
 // nobody includes, is read by name like a module).
 func load(srcs []modSrc, dir string) (*yang.Modules, []string) {
+	ms, errs, _ := loadRej(srcs, dir, nil)
+	return ms, errs
+}
+
+// loadRej is load with REJECTED texts on the way (rej; see rejectedText): the first is handed to a
+// throw-away Modules before the set's own Modules exists, the second to the set's Modules before
+// its first source, the others between its sources (one after each).  In a directory set the
+// texts handed to the set's Modules are files of the directory and are read by name.  A rejected
+// text leaves no trace in a Modules, so the processed set is the same as without them; diags are
+// the diagnostics each of them got, in order.
+func loadRej(srcs []modSrc, dir string, rej []modSrc) (*yang.Modules, []string, []string) {
+	var diags []string
+	if len(rej) > 0 {
+		diags = append(diags, diagnose(yang.NewModules(), rej[0], ""))
+		rej = rej[1:]
+	}
 	ms := yang.NewModules()
 	if dir != "" {
 		ms.AddPath(dir)
 	}
 	for _, s := range srcs {
+		if len(rej) > 0 {
+			diags = append(diags, diagnose(ms, rej[0], dir))
+			rej = rej[1:]
+		}
 		var err error
 		switch {
 		case dir == "":
@@ -504,15 +714,18 @@ func load(srcs []modSrc, dir string) (*yang.Modules, []string) {
 			err = ms.Read(strings.TrimSuffix(s.Name, ".yang"))
 		}
 		if err != nil {
-			return ms, []string{"read: " + err.Error()}
+			return ms, []string{"read: " + err.Error()}, diags
 		}
+	}
+	for _, s := range rej {
+		diags = append(diags, diagnose(ms, s, dir))
 	}
 	var errs []string
 	for _, e := range ms.Process() {
 		errs = append(errs, e.Error())
 	}
 	sort.Strings(errs)
-	return ms, errs
+	return ms, errs, diags
 }
 
 // writeSet puts the sources of a set into a directory of its own below the working directory
@@ -658,10 +871,13 @@ func describe(e *yang.Entry) string {
 // pipelineLight is the same run with a cheaper dump, for the deep sets (the full dump costs
 // depth x nodes): the errors of Process, the number of nodes, every 25th node and the last one
 // described, the entry errors.
-func pipelineLight(srcs []modSrc) string {
+func pipelineLight(srcs []modSrc, rej []modSrc) string {
 	return guard(func() string {
-		ms, errs := load(srcs, "")
+		ms, errs, diags := loadRej(srcs, "", rej)
 		var b strings.Builder
+		for _, d := range diags {
+			b.WriteString(d + "\n")
+		}
 		fmt.Fprintf(&b, "errors %q\n", errs)
 		for _, name := range modNames(ms) {
 			root := yang.ToEntry(ms.Modules[name])
@@ -688,10 +904,13 @@ func pipelineLight(srcs []modSrc) string {
 }
 
 // pipeline is the full load-process-convert-walk run on a private module set.
-func pipeline(srcs []modSrc, dir string) string {
+func pipeline(srcs []modSrc, dir string, rej []modSrc) string {
 	return guard(func() string {
-		ms, errs := load(srcs, dir)
+		ms, errs, diags := loadRej(srcs, dir, rej)
 		var b strings.Builder
+		for _, d := range diags {
+			b.WriteString(d + "\n")
+		}
 		fmt.Fprintf(&b, "errors %q\n", errs)
 		for _, name := range rootNames(ms) {
 			root := yang.ToEntry(rootOf(ms, name))
@@ -1163,6 +1382,15 @@ type roundResult struct {
 	// reader before anything else; LeafrefFinds: r.Find(r.Type.Path) operations of the script
 	OrphanFirst  int `json:"orphan_first_lookups"`
 	LeafrefFinds int `json:"leafref_finds"`
+	// Wide: number of children of the wide directory of the shared set (0 = none);
+	// WidePrivate: private sets of the round with a wide directory
+	Wide        int `json:"wide,omitempty"`
+	WidePrivate int `json:"wide_private,omitempty"`
+	// RejectedTexts: texts with a syntax error (or an unknown statement) loaded by the
+	// goroutines of the round on the way, diagnostics compared; Between: such texts loaded
+	// sequentially before the round
+	RejectedTexts int `json:"rejected_texts"`
+	Between       int `json:"rejected_between"`
 }
 
 func roundSeed(seed int64, round int) int64 { return seed*1000003 + int64(round)*7919 + 17 }
@@ -1189,14 +1417,17 @@ func doRound(seed int64, round, n, batch int) roundResult {
 	// directory sets at random.  (Files are written here, before any goroutine runs; this does
 	// not touch goyang.)
 	sharedDir := ""
-	spal := pal
-	if round%2 == 1 {
-		spal.pins = true
-	}
+	spal := sharedPalette(pal, round)
 	shared, st := genSet(r, withErrors, spal)
+	// the rejected texts of the round come from a generator of their own
+	rr := rand.New(rand.NewSource(roundSeed(seed, round) + 11))
+	sharedRej := rejectedFor(rr, fmt.Sprintf("r%d-shared", round))
 	if round%2 == 1 {
-		sharedDir = writeSet(fmt.Sprintf("r%d/shared", round), shared)
+		sharedDir = writeSet(fmt.Sprintf("r%d/shared", round), append(append([]modSrc{}, shared...), sharedRej[1:]...))
 		res.DirSet = true
+	}
+	if st.wide > 0 {
+		res.Wide = spal.wide
 	}
 	defer os.RemoveAll(fmt.Sprintf("r%d", round))
 	res.SharedHash = hashSet(shared)
@@ -1212,12 +1443,15 @@ func doRound(seed int64, round, n, batch int) roundResult {
 		srcs  []modSrc
 		dir   string
 		light bool // deep set: cheaper dump
+		// rejected texts loaded on the way: one on a throw-away Modules first, the others on the
+		// set's own Modules before and between its sources (see loadRej)
+		rej []modSrc
 	}
 	dump := func(ps privSet) string {
 		if ps.light {
-			return pipelineLight(ps.srcs)
+			return pipelineLight(ps.srcs, ps.rej)
 		}
-		return pipeline(ps.srcs, ps.dir)
+		return pipeline(ps.srcs, ps.dir, ps.rej)
 	}
 	privs := make([][]privSet, np)
 	for k := range privs {
@@ -1227,16 +1461,20 @@ func doRound(seed int64, round, n, batch int) roundResult {
 		}
 		// first of all a deep set, for every pipeline (every other one when there are many) at the same moment
 		if np <= 4 || k%2 == 0 {
-			privs[k] = append(privs[k], privSet{srcs: deepSet(r, pal), light: true})
+			privs[k] = append(privs[k], privSet{srcs: deepSet(r, pal), light: true, rej: rejectedFor(rr, fmt.Sprintf("r%d-p%d-deep", round, k))})
 		}
 		for q := 0; q < sets; q++ {
 			ppal := pal
 			ppal.pins = r.Intn(2) == 0
-			set, _ := genSet(r, r.Intn(5) == 0, ppal)
-			ps := privSet{srcs: set}
+			// a private set with errors has a wide directory too (small widths more often)
+			ppal.wide = []int{24, 24, 32, 32, 64, 200}[r.Intn(6)]
+			set, pst := genSet(r, r.Intn(5) == 0, ppal)
+			ps := privSet{srcs: set, rej: rejectedFor(rr, fmt.Sprintf("r%d-p%d-%d", round, k, q))}
 			if r.Intn(3) == 0 {
-				ps.dir = writeSet(fmt.Sprintf("r%d/p%d-%d", round, k, q), set)
+				ps.dir = writeSet(fmt.Sprintf("r%d/p%d-%d", round, k, q), append(append([]modSrc{}, set...), ps.rej[1:]...))
 			}
+			res.RejectedTexts += len(ps.rej)
+			res.WidePrivate += pst.wide
 			privs[k] = append(privs[k], ps)
 		}
 	}
@@ -1245,6 +1483,7 @@ func doRound(seed int64, round, n, batch int) roundResult {
 	var (
 		shMS           *yang.Modules
 		shErrs         []string
+		shDiags        []string
 		shRoots        = map[string]*yang.Entry{}
 		firstOps       []op
 		nsOps, restOps []op
@@ -1274,7 +1513,7 @@ func doRound(seed int64, round, n, batch int) roundResult {
 				func() {
 					defer close(sharedReady)
 					builderPanic = guard(func() string {
-						shMS, shErrs = load(shared, sharedDir)
+						shMS, shErrs, shDiags = loadRej(shared, sharedDir, sharedRej)
 						for _, name := range rootNames(shMS) {
 							shRoots[name] = yang.ToEntry(rootOf(shMS, name))
 						}
@@ -1373,7 +1612,18 @@ func doRound(seed int64, round, n, batch int) roundResult {
 			}
 		}
 		// the expected answers come from a twin of the shared set, built now
-		refMS, _ := load(shared, sharedDir)
+		refMS, _, refDiags := loadRej(shared, sharedDir, sharedRej)
+		res.RejectedTexts += len(sharedRej)
+		for i, d := range refDiags {
+			res.Evals++
+			if i >= len(shDiags) || shDiags[i] != d {
+				got := "none"
+				if i < len(shDiags) {
+					got = shDiags[i]
+				}
+				res.Problems = append(res.Problems, diagProblem("pipeline 0 while it loaded the shared set", got, d))
+			}
+		}
 		refRoots := map[string]*yang.Entry{}
 		for _, name := range rootNames(refMS) {
 			refRoots[name] = yang.ToEntry(rootOf(refMS, name))
@@ -1423,7 +1673,17 @@ func doRound(seed int64, round, n, batch int) roundResult {
 	for k := 0; k < np; k++ {
 		for q, set := range privs[k] {
 			res.Evals++
-			if want := dump(set); gotDump[k][q] != want {
+			want := dump(set)
+			if gotDump[k][q] != want {
+				// the diagnostics of the rejected texts are the first lines of a dump
+				gl, wl := strings.Split(gotDump[k][q], "\n"), strings.Split(want, "\n")
+				for i := 0; i < len(gl) && i < len(wl) && strings.HasPrefix(wl[i], "rejected-text "); i++ {
+					if gl[i] != wl[i] {
+						res.Problems = append(res.Problems, diagProblem(fmt.Sprintf("pipeline %d, set %d", k, q), gl[i], wl[i]))
+					}
+				}
+			}
+			if gotDump[k][q] != want {
 				res.Problems = append(res.Problems, fmt.Sprintf("pipeline %d, set %d: dump of the concurrent run differs from the sequential run (%d vs %d bytes): %s", k, q, len(gotDump[k][q]), len(want),
 					strings.Replace(strings.Replace(firstDiff(want, gotDump[k][q]), "alone ", "sequential ", 1), "here ", "concurrent ", 1)))
 			}
@@ -1432,18 +1692,41 @@ func doRound(seed int64, round, n, batch int) roundResult {
 	return res
 }
 
+// sharedPalette: what the shared set of a round may use beyond the staged kinds: every other
+// round it is a directory set with pinned revision-dates; in the rounds whose shared set has
+// errors (every fourth) its module m0 has a wide directory of 24, 32, 64 or 200 children in turn.
+func sharedPalette(pal palette, round int) palette {
+	pal.pins = round%2 == 1
+	pal.wide = wideWidths[(round/4)%len(wideWidths)]
+	return pal
+}
+
+// diagProblem words a difference between the diagnostics a rejected text got in the concurrent
+// phase and the ones its sequential twin got.
+func diagProblem(who, got, want string) string {
+	what := "differ from the ones the same text gets sequentially"
+	if strings.Contains(got, foreignMark) && !strings.Contains(want, foreignMark) {
+		what = "name a file of ANOTHER module set (this text is the only one of that name; independent sets share a parser?)"
+	}
+	return fmt.Sprintf("C19 clause \"every caller obtains the result a sequential run would give\": %s: the diagnostics of a rejected text %s: concurrent %s, sequential %s", who, what, got, want)
+}
+
 // showRound prints the program of a round: the shared sources, the script, the sequential answers.
 func showRound(seed int64, round, batch int) {
 	r := rand.New(rand.NewSource(roundSeed(seed, round)))
 	pal, kinds := paletteFor(seed, round, batch)
 	fmt.Printf("---- round %d = stage %d of its process; optional statement kinds in use: %v\n", round, round%batch, kinds)
-	pal.pins = round%2 == 1
+	pal = sharedPalette(pal, round)
 	if pal.pins {
 		fmt.Printf("---- the shared set of this round is a directory set (files on the search path, modules read by name)\n")
 	}
 	shared, _ := genSet(r, round%4 == 3, pal)
 	for _, s := range shared {
 		fmt.Printf("---- %s\n%s", s.Name, s.Text)
+	}
+	for i, s := range rejectedFor(rand.New(rand.NewSource(roundSeed(seed, round)+11)), fmt.Sprintf("r%d-shared", round)) {
+		fmt.Printf("---- rejected text %d of the shared set (the first goes to a throw-away Modules, the others to the set's own before and between its sources): %s, %d bytes -> %s\n",
+			i, s.Name, len(s.Text), diagnose(yang.NewModules(), s, ""))
 	}
 	ms, errs := load(shared, "")
 	fmt.Printf("---- Process errors: %q\n", errs)
@@ -1469,7 +1752,7 @@ func showRound(seed int64, round, batch int) {
 // processed before or alongside must not show.  (It runs after the last round only, because it
 // converts every statement kind and would spoil the cold introduction of kinds otherwise.)
 func canarySet() []modSrc {
-	full := palette{true, true, true, true, true, true, true, true, true, true, true, true, false}
+	full := palette{true, true, true, true, true, true, true, true, true, true, true, true, false, 0}
 	set, _ := genSet(rand.New(rand.NewSource(424242)), false, full)
 	return append(set, modSrc{Name: "plain.yang", Text: `module plain {
   yang-version 1.1;
@@ -1504,7 +1787,19 @@ func child(seed int64, from, to, n, batch int) {
 	enc := json.NewEncoder(os.Stdout)
 	for round := from; round < to; round++ {
 		fmt.Fprintf(os.Stderr, "@round %d\n", round)
-		enc.Encode(doRound(seed, round, n, batch))
+		// Before every round - except the first round of every other process, which starts cold
+		// with the concurrent phase - texts of every rejected kind are loaded sequentially
+		var pre []string
+		between := 0
+		if round > from || (batch > 0 && (from/batch)%2 == 1) {
+			pre = rejectAll(seed, round)
+			between = 2 * len(rejectedKinds)
+		}
+		rr := doRound(seed, round, n, batch)
+		rr.Problems = append(pre, rr.Problems...)
+		rr.Between = between
+		rr.Evals += int64(between / 2)
+		enc.Encode(rr)
 	}
 	if canaryFile != "" {
 		want, err := os.ReadFile(canaryFile)
@@ -1512,7 +1807,7 @@ func child(seed int64, from, to, n, batch int) {
 			lib.Fatal("canary: %v", err)
 		}
 		rr := roundResult{Round: to - 1, Canary: true, Evals: 1}
-		if got := pipeline(canarySet(), ""); got != string(want) {
+		if got := pipeline(canarySet(), "", nil); got != string(want) {
 			rr.Problems = []string{"INDEPENDENCE: the canary module set processed in this process after its rounds differs from the same set processed alone in a fresh process: " + firstDiff(string(want), got)}
 		}
 		enc.Encode(rr)
@@ -1673,8 +1968,12 @@ func raceParties(stderr string) string {
 		}
 		access := strings.ToLower(strings.TrimPrefix(strings.SplitN(l, " at ", 2)[0], "Previous "))
 		fn, loc, role := "", "", "pipeline"
+		inMain := false
 		for j := k + 1; j+1 < len(lines) && strings.HasPrefix(lines[j], "  "); j += 2 {
 			f := strings.TrimSpace(lines[j])
+			if strings.HasPrefix(f, "main.") {
+				inMain = true
+			}
 			if strings.HasPrefix(f, "main.run(") || strings.Contains(f, ".run.") {
 				role = "reader"
 			}
@@ -1685,6 +1984,9 @@ func raceParties(stderr string) string {
 		}
 		if fn == "" {
 			fn = "code outside the goyang packages"
+		}
+		if !inMain {
+			role = "goroutine that the library itself started"
 		}
 		parts = append(parts, fmt.Sprintf("%s in %s (%s) by a %s", access, fn, loc, role))
 	}
@@ -1716,7 +2018,7 @@ func main() {
 	parFlag := flag.Int("par", 0, "child processes at a time (default 4 quick / 12 thorough)")
 	f := lib.ParseFlags()
 	if *isCanary {
-		os.Stdout.WriteString(pipeline(canarySet(), ""))
+		os.Stdout.WriteString(pipeline(canarySet(), "", nil))
 		return
 	}
 	if *isChild {
@@ -1756,7 +2058,8 @@ func main() {
 	distinct := lib.NewDistinct()
 	var mu sync.Mutex
 	var nodes, ops, firstNS, mods, withErr, roundsDone, unexpected, anomalies, canaries, dirSets, stormNodes int64
-	var errStorm, orphanRounds, orphanFirst, leafrefFinds int64
+	var errStorm, orphanRounds, orphanFirst, leafrefFinds, rejTexts, rejBetween, widePrivate int64
+	wideHist := map[string]int64{}
 	ownErrHist := map[string]int64{}
 	type job struct{ from, to int }
 	jobs := make(chan job)
@@ -1803,6 +2106,12 @@ func main() {
 					}
 					orphanFirst += int64(rr.OrphanFirst)
 					leafrefFinds += int64(rr.LeafrefFinds)
+					rejTexts += int64(rr.RejectedTexts)
+					rejBetween += int64(rr.Between)
+					widePrivate += int64(rr.WidePrivate)
+					if rr.Wide > 0 {
+						wideHist[fmt.Sprint(rr.Wide)]++
+					}
 					for _, c := range rr.OwnErrCounts {
 						ownErrHist[fmt.Sprint(c)]++
 					}
@@ -1847,6 +2156,8 @@ func main() {
 						if p := raceParties(o.stderr); p != "" {
 							what += ": " + p
 						}
+					} else if i := strings.Index(o.stderr, "fatal error: concurrent map"); i >= 0 {
+						what = fmt.Sprintf("C19 clause \"no data race\": the Go runtime stopped the process in round %d: %s", o.last, strings.SplitN(o.stderr[i:], "\n", 2)[0])
 					}
 					if o.timeout {
 						what = fmt.Sprintf("C19: round %d did not finish (deadlock?)", o.last)
@@ -1893,6 +2204,10 @@ func main() {
 	res.Distribution["first_lookups_from_inside_orphan_submodules_per_reader_total"] = orphanFirst
 	res.Distribution["leafref_path_finds_per_reader_total"] = leafrefFinds
 	res.Distribution["entries_on_which_all_readers_call_GetErrors_together_3_times_total"] = errStorm
+	res.Distribution["rejected_texts_loaded_by_the_goroutines_of_the_rounds_diagnostics_compared"] = rejTexts
+	res.Distribution["rejected_texts_loaded_sequentially_between_rounds"] = rejBetween
+	res.Distribution["shared_sets_with_a_wide_directory_with_errors_in_2_or_more_child_subtrees_by_number_of_children"] = wideHist
+	res.Distribution["private_sets_with_such_a_wide_directory"] = widePrivate
 	res.Distribution["shared_entries_with_erroneous_descendants_by_number_of_own_errors_(3_or_more)"] = ownErrHist
 	if roundsDone > 0 && unexpected*2 > roundsDone {
 		lib.Fatal("the generator is out of date: %d of %d module sets meant to be valid do not process cleanly", unexpected, roundsDone)
@@ -1911,6 +2226,8 @@ func main() {
 		"ToEntry storm: after the namespace look-ups all readers pass a barrier and call yang.ToEntry on the AST node behind every entry of the processed trees (modules, containers, lists, leaves, stand-in leaves of leaf-lists, choices, cases, rpc parts, notifications, nodes from uses/augment) and on every grouping, same order, three times; the answer (name, kind, type, default, list attributes, children, errors of the returned entry, and whether it is the entry the cache held after the set was built) is compared with the sequential answer; the builder reports a node for which two consecutive ToEntry calls return different entries (guard of toentry-miss)",
 		"GetErrors storm (sets with errors, every fourth round): module m0 holds inner containers with 3, 5, 6 and 7 errors of their own (uses statements that name no grouping, children with the same name) and erroneous leaves one and two levels below them (eb6 inside eb5); in the storm phase all readers call GetErrors on every entry that has errors of its own and on each of its ancestors, same order, three times; every returned list, order included, is compared with the list the sequential twin gives",
 		"orphan submodules: when submodule is a statement kind of the process, half of the sets load a submodule o0 of m0 explicitly that no module includes (Process converts it but never links its imports); it imports m1 for leafref paths only, m2 for a must and a when expression only, m3 for a type and a leafref path; the building goroutine makes no look-up on the shared set, and every reader begins with r.Find(r.Type.Path) on the leafref leaves of the orphan's own tree (ToEntry(ms.SubModules[\"o0\"])) and Find of the must / when paths from their nodes, in the same order; the expected answers come from a twin set built afterwards; the trees of all submodules (included ones too) are reader roots like the module trees; leafref leaves with absolute prefixed paths also occur in ordinary modules and in the included submodule s0",
+		"rejected texts: every module set of a round comes with 2-3 texts goyang must reject (missing / extra closing brace, text ending inside a statement, missing semicolon, quoted keyword, unterminated string, unknown statement, several mistakes at once; 3-30 leaves, one in eight 100 more, the mistake at a random line; a file name nobody else uses); the goroutine that loads the set hands the first to a throw-away Modules and the others to the set's own Modules before and between its sources (Read by name in a directory set); the diagnostics must equal the ones of the sequential twin, and a diagnostic that names another .yang file is reported as naming a file of another set; before every round (except the first round of every other process, which stays cold) texts of all kinds are loaded sequentially on fresh Modules and on one Modules that takes them all, so that whatever an error path hands back (a pooled parser, a buffer) is there, possibly twice, when the goroutines of the round start parsing",
+		"wide directories: in sets with errors (every fourth shared set, a fifth of the private sets) module m0 has a directory of 24, 32, 64 or 200 children (every third a container, the rest leaves; two times in three below `container wide`, else directly in the module) with errors in 2-6 child subtrees chosen at random (one time in four in every container child): leaves of unknown types directly, one and two levels down, and uses of one grouping with such a leaf in several children; Process, the pipelines' dumps and all readers (error accessor at the directory, its ancestors and its erroneous children, together, three times; Print; Find) walk it",
 		"deep sets: the first private set of every pipeline is one module of 150-220 nested containers, converted by all pipelines at the same time; its dump must equal the sequential one (no process-wide budget or counter of the recursion)",
 		"directory sets: every other shared set (and a third of the private sets) is written to a directory that stays on the search path and is loaded by Read; its import / include statements carry revision-dates that are not the loaded revision; readers resolve prefixes (absolute prefixed Find, FindModuleByPrefix) against it",
 		"restrictions with the keywords min / max directly on built-in types (range on all integer types and decimal64, length on string and binary) occur in every set, so that the package-level range tables are the parents in concurrent pipelines",
@@ -1951,7 +2268,7 @@ func replay(f *lib.Flags, n, batch int) {
 	// the program of the round: the shared module set (the private sets and the reader script
 	// derive from the same seed; `-show <round> -seed <seed> -batch <b>` prints script and answers)
 	pal, kinds := paletteFor(ri.Seed, ri.Round, batch)
-	pal.pins = ri.Round%2 == 1
+	pal = sharedPalette(pal, ri.Round)
 	shared, _ := genSet(rand.New(rand.NewSource(roundSeed(ri.Seed, ri.Round))), ri.Round%4 == 3, pal)
 	fmt.Printf("replay: seed %d, rounds %d..%d of one fresh process (the recorded round is the last), %d goroutines;\n"+
 		"optional statement kinds of round %d: %v; its shared module set %s:\n", ri.Seed, first, ri.Round, n, ri.Round, kinds, hashSet(shared))
